@@ -101,6 +101,8 @@ var c09QueryKeys = []string{"uploads", "uploadId", "partNumber", "versioning", "
 type c09State struct {
 	uploads  []struct{ key, id string }
 	versions []struct{ key, id string }
+	// uploads whose bucket ("fz-gone") was deleted after they were initiated
+	orphans []struct{ key, id, etag string }
 }
 
 var c09Keys = []string{"k", "d/x", "d/y", "d/e/z", "v/current-deleted", "v/marker", "up/gaps", "nokey", "d", "d/", "sp ace+%25", "é"}
@@ -255,6 +257,29 @@ func c09Request(rng *rand.Rand, buckets []string, st *c09State) *drv.Req {
 	case 4:
 		q.Method, q.Path = "GET", "/"+buckets[0]
 		q.Query = drv.Q("list-type", "2", "max-keys", hostileInts[rng.Intn(12)], "start-after", c09Keys[rng.Intn(len(c09Keys))], "delimiter", "/")
+	case 5:
+		// a pending upload whose bucket no longer exists
+		if len(st.orphans) > 0 {
+			o := st.orphans[rng.Intn(len(st.orphans))]
+			q.Path = "/fz-gone/" + o.key
+			q.Query = drv.Q("uploadId", o.id)
+			switch x := rng.Intn(10); {
+			case x < 4:
+				q.Method = "POST"
+				q.Header = http.Header{}
+				q.Body = []byte("<CompleteMultipartUpload><Part><PartNumber>1</PartNumber><ETag>" + strings.ReplaceAll(o.etag, `"`, "&quot;") + "</ETag></Part></CompleteMultipartUpload>")
+				return q
+			case x < 6:
+				q.Method = "PUT"
+				q.Query = drv.Q("uploadId", o.id, "partNumber", "2")
+			case x < 8:
+				q.Method = "GET"
+			case x < 9:
+				q.Method, q.Path, q.Query = "GET", "/fz-gone", "uploads"
+			default:
+				q.Method = "DELETE"
+			}
+		}
 	}
 	// headers
 	for i := rng.Intn(4); i > 0; i-- {
@@ -358,6 +383,19 @@ func c09Setup(s *drv.Server, kind string, buckets []string) *c09State {
 	if id, _ := mpInitiate(s, b, "up/gaps", nil); id != "" {
 		mpUploadPart(s, b, "up/gaps", id, 10000, []byte("last"), nil)
 		st.uploads = append(st.uploads, struct{ key, id string }{"up/gaps", id})
+	}
+	// pending uploads in a bucket that is then deleted (it holds no objects, so the delete succeeds)
+	if !drv.IsSingle(kind) && !s.Opts.AutoBucket {
+		if cr := s.CreateBucket("fz-gone"); cr.Status == 200 {
+			for i := 0; i < 6; i++ {
+				k := fmt.Sprintf("orph/%d", i)
+				if id, _ := mpInitiate(s, "fz-gone", k, nil); id != "" {
+					pr := mpUploadPart(s, "fz-gone", k, id, 1, []byte("orphan part"), nil)
+					st.orphans = append(st.orphans, struct{ key, id, etag string }{k, id, pr.ETag()})
+				}
+			}
+			s.Do(&drv.Req{Method: "DELETE", Path: "/fz-gone"})
+		}
 	}
 	return st
 }
@@ -548,7 +586,7 @@ func watchHangs(r *rep.Reporter, slots []*inflight, stop <-chan struct{}, limit 
 					verdict = fmt.Sprintf("goroutine %s serving the request keeps running; the process burnt %.1f CPU-seconds in 5 s", id, c2-c1)
 				}
 			}
-			outDir := filepath.Join(rep.Root, "out", r.ID)
+			outDir := rep.OutDir(r.ID)
 			os.MkdirAll(outDir, 0755)
 			dumpFile := filepath.Join(outDir, fmt.Sprintf("hang-%d.txt", time.Now().UnixNano()))
 			os.WriteFile(dumpFile, []byte(d1+"\n\n=========== 5 s later ===========\n\n"+d2), 0644)
@@ -573,7 +611,7 @@ type c09Config struct {
 
 func runC09(c *Ctx) {
 	r := c.R
-	r.SetRule("requests generated from a grammar of the routed surface: 16 methods x bucket/object/hostile paths x 0-6 query parameters out of 28 sub-resource and paging names with values from hostile classes (empty, negative, 2^31/2^63/2^64 neighbourhood, non-numeric, NUL, invalid UTF-8, overlong, existing and garbage upload/version ids, malformed tokens) x up to 3 headers out of 14 kinds (Range, Content-MD5, copy source, streaming sha256, decoded length, conditionals, dates, force-delete, CORS, multipart form, metadata, declared length variants) x 31 bodies (valid/mutated XML for complete/delete/versioning, entity bombs, binary), against stores with objects, versions, delete markers, a version-deleted current and pending uploads with gaps; all six backends plus option variants (host-bucket, auto-bucket, no-versioning, unimplemented-page error, integrity off); every response is judged (no panic, status 200-599, error body is an S3 <Error> document whose code fits the status) and a canary script of correct requests on the fuzzed buckets and an untouched bucket runs after every 50 requests; then rounds in which 8 clients fire such requests at one server concurrently (every response judged, hang watchdog on every in-flight request, canary after each round); distinct = (config, method, route class, parameter-name set, status, error code)")
+	r.SetRule("requests generated from a grammar of the routed surface: 16 methods x bucket/object/hostile paths x 0-6 query parameters out of 28 sub-resource and paging names with values from hostile classes (empty, negative, 2^31/2^63/2^64 neighbourhood, non-numeric, NUL, invalid UTF-8, overlong, existing and garbage upload/version ids, malformed tokens) x up to 3 headers out of 14 kinds (Range, Content-MD5, copy source, streaming sha256, decoded length, conditionals, dates, force-delete, CORS, multipart form, metadata, declared length variants) x 31 bodies (valid/mutated XML for complete/delete/versioning, entity bombs, binary), against stores with objects, versions, delete markers, a version-deleted current, pending uploads with gaps and pending uploads whose bucket has been deleted; all six backends plus option variants (host-bucket, auto-bucket, no-versioning, unimplemented-page error, integrity off); every response is judged (no panic, status 200-599, error body is an S3 <Error> document whose code fits the status) and a canary script of correct requests on the fuzzed buckets and an untouched bucket runs after every 50 requests; then rounds in which 8 clients fire such requests at one server concurrently (every response judged, hang watchdog on every in-flight request, canary after each round); distinct = (config, method, route class, parameter-name set, status, error code)")
 	perCfg := r.Pick(40000, 1000000)
 	var cfgs []c09Config
 	for _, k := range drv.AllKinds {
@@ -729,7 +767,6 @@ func runC09(c *Ctx) {
 		"'never blocks indefinitely' is bounded progress: a request in flight for 90 s is examined by goroutine state (parked on a lock/channel in two dumps, or CPU-bound) - the deadline alone decides nothing",
 		"requests run in-process through the real handler chain; transport-level malformations that net/http itself rejects are out of reach")
 }
-
 
 // c09Concurrent: the same grammar, but eight clients fire their requests at one
 // server at the same time. "Never blocks indefinitely" and "still answers
@@ -972,7 +1009,7 @@ func c09NativeFuzz(r *rep.Reporter) {
 		if crasher != "" {
 			src := filepath.Join(rep.Root, "harness", "checks", crasher)
 			if b, rerr := os.ReadFile(src); rerr == nil {
-				saved = filepath.Join(rep.Root, "out", "C09", "fuzz-crasher-"+filepath.Base(crasher))
+				saved = filepath.Join(rep.OutDir("C09"), "fuzz-crasher-"+filepath.Base(crasher))
 				os.MkdirAll(filepath.Dir(saved), 0755)
 				os.WriteFile(saved, b, 0644)
 				os.Remove(src)
